@@ -16,6 +16,7 @@ THEOREMS = [
     "GoaktVerif.C32.rrLoop_perm",
     "GoaktVerif.C32.rrLoop_mem",
     "GoaktVerif.C32.C32_redistribute_holds",
+    "GoaktVerif.C32.C32_survivors_holds",
     "GoaktVerif.C32.C32_redistribute_least_holds",
     "GoaktVerif.C32.C32_gate_holds",
     "GoaktVerif.C32.C32_batches_holds",
@@ -27,7 +28,7 @@ GO2LEAN = {"targets": [
 ]}
 INPKG = ["actor/zz_verif_c32.go"]
 MANIFEST = {
-    "level_text": "Kernel-checked theorems over a hand-written model of actor/relocation_worker.go's planning code, for EVERY map iteration order, departed state, survivor set, role sets and base loads: allocateActors' shares/singletons/unplaceable are a permutation of the departed entries with one share per target, every shared entry sits on a target advertising its role, unplaceable = exactly the non-singletons nobody can host, singletons go to the leader, with distinct entries each is in exactly one share (C32_actors_holds); at its turn every actor goes to a minimal-current-load eligible target, lowest index on ties, role-less = minimal among all (C32_least_loaded_holds); leader grains ++ peer shares = the grains that did not disable relocation, exactly once, at most one share per target, even split (C32_grains_holds); redistribution after an unreachable target keeps the same rules incl. leader fallback, failure iff nobody can host, grain round-robin (C32_redistribute_holds, C32_redistribute_least_holds); the target-side dispatch never recreates system or non-relocatable entries (C32_gate_holds); batching keeps every item once (C32_batches_holds, batch-size constant regenerated from the source by go2lean). Tied to the code by a differential run of the real functions: exact on a deterministic per-actor replay and on all slice-ordered functions, order-independent projections, and an order-witness search on the one-call map-ordered output; the spec oracle (partition, eligibility, least-loaded for some order) is evaluated on the implementation output.",
+    "level_text": "Kernel-checked theorems over a hand-written model of actor/relocation_worker.go's planning code, for EVERY map iteration order, departed state, survivor set, role sets and base loads: allocateActors' shares/singletons/unplaceable are a permutation of the departed entries with one share per target, every shared entry sits on a target advertising its role, unplaceable = exactly the non-singletons nobody can host, singletons go to the leader, with distinct entries each is in exactly one share (C32_actors_holds); at its turn every actor goes to a minimal-current-load eligible target, lowest index on ties, role-less = minimal among all (C32_least_loaded_holds); leader grains ++ peer shares = the grains that did not disable relocation, exactly once, at most one share per target, even split (C32_grains_holds); the survivors of an unreachable target are exactly the peers whose host:port differs (C32_survivors_holds); redistribution after an unreachable target keeps the same rules incl. leader fallback, failure iff nobody can host, grain round-robin (C32_redistribute_holds, C32_redistribute_least_holds); the target-side dispatch never recreates system or non-relocatable entries (C32_gate_holds); batching keeps every item once (C32_batches_holds, batch-size constant regenerated from the source by go2lean). Tied to the code by a differential run of the real functions: exact on a deterministic per-actor replay and on all slice-ordered functions, order-independent projections, and an order-witness search on the one-call map-ordered output; the spec oracle (partition, eligibility, least-loaded for some order) is evaluated on the implementation output.",
     "level_note": "Trusted: Lean kernel + propext/Quot.sound/Classical.choice; the differential sees only generated cases (bounded-exhaustive small + random up to 200 actors/8 peers). Not modelled: snapshot construction (preShutdown/deriveRelocationSetFromRegistry), reliable-delivery endpoints, negative/overflowing int loads; Chunkify with size 0 on a non-empty slice (never called so; batch size proved positive from the regenerated constant). The plan functions do not filter relocatable/system entries themselves; 'not assigned' is proved for the target-side dispatch gate, which is tied by running one entry through the real enqueueRelocation.",
     "technique": "Lean 4 proof (induction over the iteration order) on a hand-written model, tied by a model/implementation differential with an order-witness search for the map-ordered functions",
 }
@@ -37,7 +38,7 @@ TRUSTED = [
     "tools/go2lean translation of the constant defaultRelocationBatchSize",
     "the in-package accessors harness/inpkg/actor/zz_verif_c32.go are pass-through wrappers; the gate probe uses a registry double that records whether the respawn path reached the registry",
 ]
-RULE = ("ops aa/ag/ch/bb/rr/ll/el/gate; fixed corner cases; bounded-exhaustive aa over <=3 targets x role sets {-,a,b,ab} x loads <=2 x "
+RULE = ("ops aa/ag/ch/bb/rr/sp/rx/ll/el/gate (sp/rx: peers on a tiny host x port grid so survivors share the unreachable target's host or port); fixed corner cases; bounded-exhaustive aa over <=3 targets x role sets {-,a,b,ab} x loads <=2 x "
         "<=3 actors (quick, sampled) / <=5 actors (thorough); random aa up to 12 actors/4 peers and up to 200 actors/8 peers with singleton, "
         "non-relocatable, system flags, unknown roles, mis-sized base loads; grains up to 200 over <=9 targets; redistribution requests; "
         "chunk sizes around 500; non-trivial = implementation produced a plan; distinct by (case, output)")
@@ -136,6 +137,48 @@ def rand_rr(rng, max_actors, max_surv):
     return f"rr {roles_tok(leader)} {peers_tok(surv)} {'/'.join(reqs) if reqs else '-'}"
 
 
+def rand_peers_e(rng, nroles, n):
+    """peers with endpoints drawn from a tiny host x port grid, so they often share the host or the port"""
+    hosts = [1, 2, 3] if rng.random() < 0.7 else [1, 2, 3, 4, 5, 6]
+    ports = [9000] if rng.random() < 0.4 else [9000, 9001]
+    grid = [(h, p) for h in hosts for p in ports]
+    if rng.random() < 0.9 and n <= len(grid):
+        eps = rng.sample(grid, n)
+    else:
+        eps = [rng.choice(grid) for _ in range(n)]
+    return [(h, p, rand_roles(rng, nroles)) for h, p in eps]
+
+
+def peers_e_tok(ps):
+    return ";".join(f"{h}:{p}:{roles_tok(r)}" for h, p, r in ps) if ps else "."
+
+
+def rand_sp(rng):
+    ps = rand_peers_e(rng, 2, rng.randint(1, 6))
+    return f"sp {peers_e_tok(ps)} {rng.randrange(len(ps))}"
+
+
+def rand_rx(rng, max_actors):
+    nroles = rng.choice([0, 1, 2, 2, 3])
+    ps = rand_peers_e(rng, nroles, rng.randint(1, 6))
+    leader = rand_roles(rng, nroles)
+    t = rng.randrange(len(ps))
+    na = rng.randint(0, max_actors)
+    ids = rng.sample(range(1, 4 * max_actors + 10), na)
+    reqs = []
+    pool = list(ids)
+    gid = 1
+    while pool:
+        k = rng.randint(1, len(pool))
+        chunk, pool = pool[:k], pool[k:]
+        acts = [actor_tok(i, rng.choice([0] + list(range(1, nroles + 2)))) for i in chunk]
+        reqs.append("A" + actors_tok(acts) + "+G-")
+    if rng.random() < 0.5:
+        ng = rng.randint(1, 4)
+        reqs.append("A-+G" + actors_tok(rand_grains(rng, ng, lo=gid)))
+    return f"rx {roles_tok(leader)} {peers_e_tok(ps)} {t} {'/'.join(reqs) if reqs else '-'}"
+
+
 def exhaustive_aa(rng, tier):
     """bounded-exhaustive: <= 3 survivors (leader + <= 2 peers... up to 3 targets besides), roles {0,a,b},
     loads <= 2; actors up to 5 (thorough) with sampled role vectors"""
@@ -173,6 +216,9 @@ def fixed_cases():
         "ch 10 3", "ch 0 0", "ch 5 5", "ch 0 4", "ch 1 500", "ch 1001 500",
         "bb 1201 3", "bb 0 0", "bb 500 500", "bb 501 0", "bb 0 1000",
         "rr 1 2;- A1.0,2.1,3.2,4.3+G5.e,6/A7.0+G8", "rr - . A1.0,2.1+G-", "rr - 1;1 -", "rr 1 . A1.1,2.0+G3,4.e",
+        "sp 1:9000:-;2:9000:1;1:9001:-;3:9002:- 0", "sp 1:9000:- 0", "sp 1:9000:-;1:9000:1 1",
+        "rx - 1:9000:-;2:9000:1;3:9000:- 0 A1.1,2.0+G-",
+        "rx 2 1:9000:1;1:9001:1;2:9000:- 0 A1.1,2.0,3.2,4.3+G-/A-+G5.e,6",
         "ll 1;-;1 2,0,1 1", "ll 1;-;1 2,0,1 0", "ll 1;-;1 2,0,1 2", "ll . - 0", "ll -;- 1,1 0",
         "el 1,2 2", "el - 0", "el - 1", "el 0 0", "el 1,2 3",
     ]
@@ -198,6 +244,10 @@ def gen_cases(rng, tier):
         cases.append(rand_rr(rng, rng.choice([4, 12, 40]), rng.choice([0, 1, 3, 7])))
     for _ in range(10 if quick else 60):
         cases.append(rand_rr(rng, 200, 7))
+    for _ in range(60 if quick else 600):
+        cases.append(rand_sp(rng))
+    for _ in range(100 if quick else 1500):
+        cases.append(rand_rx(rng, rng.choice([3, 8, 20])))
     for _ in range(40 if quick else 600):
         n = rng.choice([0, 1, 2, 5, 17, 100, 499, 500, 501, 1500])
         cases.append(f"ch {n} {rng.choice([1, 2, 3, 7, 500, 2000])}")
